@@ -167,10 +167,12 @@ class Side:
         self.silent = set()
         self.timed = set()      # shared: ended for silence on either side
         self.step_tickets = []
+        self.step_calls = []
 
     def do(self, a):
         sim, R = self.sim, self.R
         self.step_tickets = []
+        self.step_calls = []
         op = a[0]
         if op == 'open':
             s = R.open(a[1], autopoll=False, autopong=0)
@@ -202,7 +204,7 @@ class Side:
             else:
                 return
         if op == 'send':
-            R.send(s, a[2])
+            self.step_calls.append(R.send(s, a[2]))
         elif op == 'poll':
             if s.mode == 'polling':
                 R.poll(s)
@@ -285,7 +287,7 @@ class Side:
                 s.man_ws = None
                 R.upgrade_failed(s)
         elif op == 'disc':
-            R.disconnect(s)
+            self.step_calls.append(R.disconnect(s))
         elif op == 'wsclose':
             if s.mode == 'websocket':
                 R.ws_close(s, 'close')
@@ -360,8 +362,12 @@ class Side:
             if s.accepted and s.n not in self.silent:
                 live.append((s.n, s.sid in sim.live_sids(),
                              sim.transport_of(s.sid)))
+        calls = [(t.info.get('call'),
+                  'pending' if not t.done else
+                  type(t.exc).__name__ if t.exc is not None else 'returned')
+                 for t in self.step_calls]
         return {'events': ev, 'deliveries': dl, 'other': ot, 'status': st,
-                'live': live}
+                'live': live, 'calls': calls}
 
 
 def run_history(rec, case):
@@ -387,7 +393,8 @@ def run_history(rec, case):
             for stream, cname in (('events', 'event_streams'),
                                   ('deliveries', 'delivery_streams'),
                                   ('status', 'status_compared'),
-                                  ('live', 'liveness_compared')):
+                                  ('live', 'liveness_compared'),
+                                  ('calls', 'call_outcomes_compared')):
                 rec.count(cname, max(1, len(ot[stream])))
                 x, y = ot[stream], oa[stream]
                 if stream == 'events':
@@ -406,6 +413,12 @@ def run_history(rec, case):
                     timed_seen.update(timed)
                     x = [e for e in x if e[0] not in timed]
                     y = [e for e in y if e[0] not in timed]
+                if stream == 'calls' and any(c[1] == 'pending'
+                                             for c in x + y):
+                    # how long a call stays inside a suspended disconnect
+                    # handler is not compared (K1); what it returns or
+                    # raises once both are back is
+                    continue
                 if x != y:
                     V('diverge-%s-after-%s' % (stream, a[0] if a[0] != 'up'
                                                else 'post'),
